@@ -260,3 +260,14 @@ Proof.
   exists (mkErr [53; 48; 48]%N [120]%N ExcNone None), ExcNone, (Some [84]%N).
   vm_compute. discriminate.
 Qed.
+
+(* ---------------- several requests on one application ---------------- *)
+
+Lemma response_function_of_request (isp : N -> bool) (before after : list request) (q : request) :
+  length (respond_seq isp (before ++ q :: after)) = length (before ++ q :: after)
+  /\ nth_error (respond_seq isp (before ++ q :: after)) (length before) = Some (respond_req isp q).
+Proof.
+  unfold respond_seq. split; [apply map_length|].
+  rewrite map_app. cbn [map]. rewrite nth_error_app2; rewrite map_length; [|lia].
+  now rewrite Nat.sub_diag.
+Qed.
